@@ -23,18 +23,35 @@ use uuid::Uuid;
 
 pub const N_PARSERS: u8 = 10;
 
-/// parse -> write -> parse must give an equal value, and writing is stable.
-fn round_trip<T: PartialEq + Debug, E>(what: &str, data: &[u8], parse: impl Fn(&[u8]) -> Result<T, E>, write: impl Fn(&T) -> Vec<u8>) {
+/// parse -> write -> parse: the library's own output must parse, writing must
+/// be stable from there on, and the re-parsed value must equal its own
+/// re-parse. With `strict` the first value must equal the re-parsed one as well
+/// (RRDP files: "a file written by the library parses back to an equal
+/// value"). The CA protocol messages are compared from the second generation
+/// on only: a value obtained by *parsing* may hold shapes no constructor
+/// produces and the writer normalises (a publication PDU without tag is
+/// written as tag="", a report_error without text gets the default text of
+/// its code), which the properties — stated for messages constructed through
+/// the public API — do not forbid.
+fn round_trip<T: PartialEq + Debug, E>(what: &str, strict: bool, data: &[u8], parse: impl Fn(&[u8]) -> Result<T, E>, write: impl Fn(&T) -> Vec<u8>) {
     let Ok(v) = parse(data) else { return };
     let xml = write(&v);
     match parse(&xml) {
         Ok(v2) => {
-            if v != v2 {
+            if strict && v != v2 {
                 panic!("{}: round trip changed the value: {:?} != {:?}", what, v, v2);
             }
             let xml2 = write(&v2);
             if xml != xml2 {
                 panic!("{}: writing is not stable", what);
+            }
+            match parse(&xml2) {
+                Ok(v3) => {
+                    if v2 != v3 {
+                        panic!("{}: round trip of the library's own output changed the value: {:?} != {:?}", what, v2, v3);
+                    }
+                }
+                Err(_) => panic!("{}: own output does not parse (second generation)", what),
             }
         }
         Err(_) => panic!("{}: own output does not parse: {}", what, String::from_utf8_lossy(&xml[..xml.len().min(600)])),
@@ -91,7 +108,7 @@ fn to_vec(f: impl FnOnce(&mut Vec<u8>) -> Result<(), std::io::Error>) -> Vec<u8>
 fn run(which: u8, doc: &[u8]) {
     match which % N_PARSERS {
         0 => {
-            round_trip("rrdp notification", doc, |d| NotificationFile::parse(d), |v| to_vec(|w| v.write_xml(w)));
+            round_trip("rrdp notification", true, doc, |d| NotificationFile::parse(d), |v| to_vec(|w| v.write_xml(w)));
             if let Ok(n) = NotificationFile::parse_limited(doc, 3) {
                 let _ = (n.delta_status().is_ok(), n.deltas().len());
             }
@@ -108,7 +125,7 @@ fn run(which: u8, doc: &[u8]) {
             }
         }
         1 => {
-            round_trip("rrdp snapshot", doc, |d| Snapshot::parse(d), |v| to_vec(|w| v.write_xml(w)));
+            round_trip("rrdp snapshot", true, doc, |d| Snapshot::parse(d), |v| to_vec(|w| v.write_xml(w)));
             let mut c = Collect::default();
             let processed = ProcessSnapshot::process(&mut c, doc);
             match (Snapshot::parse(doc), processed) {
@@ -125,7 +142,7 @@ fn run(which: u8, doc: &[u8]) {
             }
         }
         2 => {
-            round_trip("rrdp delta", doc, |d| Delta::parse(d), |v| to_vec(|w| v.write_xml(w)));
+            round_trip("rrdp delta", true, doc, |d| Delta::parse(d), |v| to_vec(|w| v.write_xml(w)));
             let mut c = Collect::default();
             let processed = ProcessDelta::process(&mut c, doc);
             match (Delta::parse(doc), processed) {
@@ -145,12 +162,12 @@ fn run(which: u8, doc: &[u8]) {
                 (a, b) => panic!("Delta::parse ok={} but collecting processor ok={}", a.is_ok(), b.is_ok()),
             }
         }
-        3 => round_trip("rfc6492 message", doc, |d| provisioning::Message::decode(d), |v| v.to_xml_bytes().to_vec()),
-        4 => round_trip("rfc8181 message", doc, |d| publication::Message::decode(d), |v| v.to_xml_bytes().to_vec()),
-        5 => round_trip("rfc8183 child request", doc, |d| ChildRequest::parse(d), |v| v.to_xml_vec()),
-        6 => round_trip("rfc8183 parent response", doc, |d| ParentResponse::parse(d), |v| v.to_xml_vec()),
-        7 => round_trip("rfc8183 publisher request", doc, |d| PublisherRequest::parse(d), |v| v.to_xml_vec()),
-        8 => round_trip("rfc8183 repository response", doc, |d| RepositoryResponse::parse(d), |v| v.to_xml_vec()),
+        3 => round_trip("rfc6492 message", false, doc, |d| provisioning::Message::decode(d), |v| v.to_xml_bytes().to_vec()),
+        4 => round_trip("rfc8181 message", false, doc, |d| publication::Message::decode(d), |v| v.to_xml_bytes().to_vec()),
+        5 => round_trip("rfc8183 child request", false, doc, |d| ChildRequest::parse(d), |v| v.to_xml_vec()),
+        6 => round_trip("rfc8183 parent response", false, doc, |d| ParentResponse::parse(d), |v| v.to_xml_vec()),
+        7 => round_trip("rfc8183 publisher request", false, doc, |d| PublisherRequest::parse(d), |v| v.to_xml_vec()),
+        8 => round_trip("rfc8183 repository response", false, doc, |d| RepositoryResponse::parse(d), |v| v.to_xml_vec()),
         _ => {
             // every parser on the same document: none may panic
             let _ = NotificationFile::parse(doc).is_ok();
